@@ -21,6 +21,8 @@ from . import c13
 PROFILE = {"vmerge": 0.0, "point_comment": 0.0, "hyperlink": 0.0, "ins": 0.0, "del": 0.0, "subst": 0.0, "comment": 0.0,
            "overlap_comment": 0.0, "field": 0.0, "opaque": 0.0, "empty_run": 0.02, "br": 0.0, "literal_tab": 0.0}
 PROFILES = {"default": PROFILE,
+            # line breaks inside (formatted) runs: several spans of the index point at one run
+            "breaks": dict(PROFILE, br=0.25, fmt=0.7, table=0.0, runs=(2, 4)),
             # short paragraphs next to one another, nearly all of them changed: changes merge across separators
             "dense": dict(PROFILE, blocks=(3, 7), runs=(1, 2), table=0.0, heading=0.1, empty_para=0.1, header=0.0, footer=0.0),
             "cell_edges": dict(PROFILE, table=0.6, heading=0.25), "tables": dict(PROFILE, table=0.45, nested_table=0.25, heading=0.25, fmt=0.6, header=0.4, footer=0.3)}
@@ -250,7 +252,7 @@ def nontrivial(res):
 def run(tier, seed, driver_ok):
     return doccheck.run_doc_check(
         "C12", tier, seed, driver_ok, n_quick=300, n_thorough=5000,
-        profiles=[("default", PROFILES["default"], 2), ("dense", PROFILES["dense"], 2), ("tables", PROFILES["tables"], 4),
+        profiles=[("breaks", PROFILES["breaks"], 1), ("default", PROFILES["default"], 2), ("dense", PROFILES["dense"], 2), ("tables", PROFILES["tables"], 4),
                   ("cell_edges", PROFILES["cell_edges"], 1)],
         work=work, oracle=oracle, classify=classify, driver_line=driver_line, compare=compare, nontrivial=nontrivial,
         rule="seeded generated documents without prior revisions (paragraphs, tables, nested tables, headings, bold/"
